@@ -22,10 +22,10 @@ import (
 
 // Findings on the unchanged tree (all reproduce through the public API: repro/C41/parse_findings_test.go), kept as
 // known findings so that other violations are still reported:
-//   C41-render-foreign-void        Parse("<svg><input>x") -> Render: "html: void element <input> has child nodes"
+//   (C41-render-foreign-void is fixed in /repo d5b9f3d: Parse("<svg><input>x") -> Render failed "void element <input> has child nodes")
 //   C41-fragment-head-root-popped  ParseFragment("<frameset></frameset>" | "</body><!--c-->", context <head>) -> error from a
 //                                  recovered nil dereference / panic("bad parser state") because inHeadIM popped the html root
-//   C41-fragment-foreign-endhtml   ParseFragment("</html>x", context <svg> or <math>) -> error from a recovered nil dereference:
+//   (fixed in /repo) C41-fragment-foreign-endhtml   ParseFragment("</html>x", context <svg> or <math>) -> error from a recovered nil dereference:
 //                                  parseForeignContent pops the html root because its name matches the end tag
 //
 // Sensitivity (mut.sh, quick tier, soup):
@@ -85,9 +85,9 @@ func c41checkRoot(n *Node, fragment bool) int {
 		c41walk(n, nil, 0, &budget)
 	}
 	var buf bytes.Buffer
-	// Known finding C41-render-foreign-void: "<svg><input>x" parses to an svg-namespace element named "input" with a
-	// text child; Render looks only at the name (voidElements[n.Data]) and fails with "void element <input> has child nodes".
-	vfAssertKF(Render(&buf, n) == nil, "Render of the returned tree succeeds", "C41-render-foreign-void", c41foreignVoid)
+	// (fixed finding C41-render-foreign-void, /repo d5b9f3d: "<svg><input>x" parses to an svg-namespace element named
+	// "input" with a text child; Render looked only at the name and failed with "void element <input> has child nodes")
+	vfAssert(Render(&buf, n) == nil, "Render of the returned tree succeeds")
 	return 200 - budget
 }
 
@@ -161,15 +161,10 @@ func c41parse(sk int, body string, scripting bool) {
 	// empty stack: "<frameset></frameset>" dereferences p.oe.top() == nil in inFramesetIM, "</body><!--c-->" reaches
 	// the explicit panic "bad parser state: <html> element not found" in afterBodyIM. parse() recovers the panic and
 	// returns it as an error. Every error under a <head> context is attributed to this root cause.
-	// Known finding C41-fragment-foreign-endhtml: with an svg/math context element the end tag "</html>" is handled by
-	// parseForeignContent, whose first test compares the tag with the current node's name without looking at its
-	// namespace: the synthetic html root matches and is popped, the stack is empty, and the next text token makes
-	// inBodyIM dereference p.oe.top() == nil (recovered, returned as an error).
-	if c.ns != "" {
-		vfAssertKF(err == nil, "ParseFragment returns no error (no recovered panic)", "C41-fragment-foreign-endhtml", strings.Contains(body, "</html>"))
-	} else {
-		vfAssertKF(err == nil, "ParseFragment returns no error (no recovered panic)", "C41-fragment-head-root-popped", c.tag == "head")
-	}
+	// (fixed finding C41-fragment-foreign-endhtml, /repo fix "do not pop the root html element for </html> in a
+	// foreign-context fragment": with an svg/math context element "</html>" popped the synthetic html root in
+	// parseForeignContent and the next text token dereferenced p.oe.top() == nil)
+	vfAssertKF(err == nil, "ParseFragment returns no error (no recovered panic)", "C41-fragment-head-root-popped", c.ns == "" && c.tag == "head")
 	total := 0
 	for _, n := range nodes {
 		total += c41checkRoot(n, true)
